@@ -18,7 +18,8 @@ Inductive aexp :=
 | AConst (c : N)
 | ADiv (a b : aexp)
 | AMul (a b : aexp)
-| AAdd (a b : aexp).
+| AAdd (a b : aexp)
+| ASub (a b : aexp).
 
 Inductive bexp :=
 | BVar (v : N)
@@ -38,6 +39,7 @@ Fixpoint aeval (ea : N -> N) (a : aexp) : N :=
   | ADiv x y => aeval ea x / aeval ea y
   | AMul x y => aeval ea x * aeval ea y
   | AAdd x y => aeval ea x + aeval ea y
+  | ASub x y => aeval ea x - aeval ea y
   end.
 
 Fixpoint beval (ea : N -> N) (eb : N -> bool) (b : bexp) : bool :=
@@ -60,6 +62,7 @@ Fixpoint aexp_eqb (a b : aexp) : bool :=
   | ADiv a1 a2, ADiv b1 b2 => aexp_eqb a1 b1 && aexp_eqb a2 b2
   | AMul a1 a2, AMul b1 b2 => aexp_eqb a1 b1 && aexp_eqb a2 b2
   | AAdd a1 a2, AAdd b1 b2 => aexp_eqb a1 b1 && aexp_eqb a2 b2
+  | ASub a1 a2, ASub b1 b2 => aexp_eqb a1 b1 && aexp_eqb a2 b2
   | _, _ => false
   end.
 
